@@ -111,7 +111,8 @@ func extractRoundMessage(r round.Session, msg *Message) (round.Message, error) {
 	return roundMsg, nil
 }
 
-func (h *TwoPartyHandler) verifyMessage(msg *Message) error {
+func (h *TwoPartyHandler) verifyMessage(msg *Message) (err error) {
+	defer recoverAsError(&err)
 	if msg == nil {
 		return nil
 	}
